@@ -56,6 +56,12 @@ class AbsSel:
         self.den = den
         self.name = name or "S"
         self.hitf = z3.Function(engine().fresh_name("Hit_" + self.name), Atom, z3.BoolSort())
+        from vt.sym import V as _V
+
+        self.sid = z3.Const(engine().fresh_name("selid_" + self.name), _V)
+
+    def __vt_enc__(self):
+        return self.sid
 
     @staticmethod
     def fresh(name):
@@ -152,11 +158,7 @@ class _MatchContract(Contract):
         return None
 
 
-def _patch_len():
-    core.len = vt_len
-
-
-_patch_len()
+from . import _patch  # noqa: E402,F401
 
 
 @contract("genjax.core:AllSel.match", ["C16"])
